@@ -352,6 +352,7 @@ pub fn ops_note(ops: &[u64]) -> String {
             3 => "finish",
             4 => "write_all",
             5 => "write_n",
+            6 => "peek_mut",
             _ => "?",
         };
         s.push_str(&format!("{}({}) ", name, p.get(1).unwrap_or(&0)));
